@@ -414,7 +414,11 @@ class HistKind(Kind):
 
     def _auto_case(self, rng, i):
         k = rng.choice([1, 2, 3, 5, 8, 16])
-        tdtype = ['uint8', 'float64', 'int16', 'float32'][i % 4]
+        # float32 traces are left out on purpose: under numpy >= 2 np.linspace(float32, float32, k + 1) is a float32 array whose
+        # second differences (~1e-7) exceed the setter's 1e-9, so the code refuses its own automatic edges unless k is a power
+        # of two (observed: min -7.625, max 7.125, bins_number 3).  Outside the property text (no edges are configured);
+        # recorded in the evidence by coverage_extra(), reported to the lead.
+        tdtype = ['uint8', 'float64', 'int16', 'float64'][i % 4]
         n = rng.randint(6, 30)
         S, W = rng.randint(1, 3), rng.randint(1, 2)
         if tdtype in ('uint8', 'int16'):
@@ -621,7 +625,7 @@ class HistKind(Kind):
             yield dict(case, batches=[merged])
             return
         n = len(bs[0]['traces'])
-        if n > 1:
+        if n > 1 and not case.get('bins_number'):
             h = n // 2
             for sl in (slice(0, h), slice(h, n)):
                 yield dict(case, step=0, batches=[{'traces': bs[0]['traces'][sl], 'data': bs[0]['data'][sl]}])
@@ -777,8 +781,23 @@ def _type_refusals():
     return {'bad': out}
 
 
+def _auto_f32_probe():
+    import scared
+    tr = np.array([[-7.625], [7.125], [0.5], [1.0]], dtype='float32')
+    d = scared.MIADistinguisher(bins_number=3, partitions=range(2))
+    try:
+        d.update(tr, np.array([[0], [1], [0], [1]], dtype='uint8'))
+        return {'refused': False, 'edges_dtype': str(d.bin_edges.dtype)}
+    except ValueError as e:
+        return {'refused': True, 'msg': str(e)[:120]}
+
+
+_OBSERVATIONS = {}
+
+
 def extra(ctx):
     """Type refusals of the bin_edges setter (outside the Coq model: Python types)."""
+    _OBSERVATIONS['automatic_edges_on_float32_traces_bins_number_3'] = WORKER.call('auto_f32', None)
     r = WORKER.call('types', None)
     WORKER.stop()
     if 'raised' in r:
@@ -787,6 +806,10 @@ def extra(ctx):
     return [{'tags': ['mia_edges_type'], 'what': f'bin_edges given as {name} {what}',
              'payload': {'property': ID, 'kind': 'mia_edges_type', 'case': {'bin_edges': rep}, 'how': 'TypeError expected'}}
             for name, rep, what in r['bad']]
+
+
+def coverage_extra():
+    return {'observations_outside_the_property': dict(_OBSERVATIONS)}
 
 
 def _worker_main():
@@ -798,7 +821,7 @@ def _worker_main():
     for line in sys.stdin:
         op, case = json.loads(line)
         try:
-            res = _type_refusals() if op == 'types' else kinds[op].run_impl(case)
+            res = _type_refusals() if op == 'types' else _auto_f32_probe() if op == 'auto_f32' else kinds[op].run_impl(case)
         except Exception as e:
             res = {'raised': exc_tag(e), 'msg': str(e)[:200], 'tb': traceback.format_exc()[-600:]}
         out.write(json.dumps(res) + '\n')
